@@ -15,6 +15,12 @@ def corr_targets(chk):
     drv = Driver()
     names = TARGETS + ["uranium", "Proton", ""]
     idx = [drv.add(f"target {n if n else '_'}") for n in names]
+    # explicit (Z, A) dicts, in both key orders: left alone, read by name
+    for tgt in (dict(Z=26.0, A=56.0), dict(A=56.0, Z=26.0), dict(A=1.0, Z=0.0)):
+        o = dict(TargetDIS=dict(tgt))
+        compatibility.update_target(o)
+        ok = isinstance(o["TargetDIS"], dict) and o["TargetDIS"]["Z"] == tgt["Z"] and o["TargetDIS"]["A"] == tgt["A"]
+        chk.corr_case("update_target", ok, dict(target=tgt, after=o["TargetDIS"]), None if ok else dict(target=tgt, after=o["TargetDIS"]), "dict/" + "".join(tgt))
     lines = drv.run()
     for n, i in zip(names, idx):
         o = dict(TargetDIS=n)
@@ -42,7 +48,8 @@ def search(chk, r, n, max_pto):
         pto = r.choice(list(range(max_pto + 1)))
         pto_evol = r.choice([0, 1, 2])
         fl = r.choice(["total", "light", "charm"])
-        target = r.choice(TARGETS[1:] + [dict(Z=float(r.uniform(0, 3)), A=float(r.uniform(3, 7)))])
+        za = (float(r.uniform(0, 3)), float(r.uniform(3, 7)))
+        target = r.choice(TARGETS[1:] + [dict(Z=za[0], A=za[1]), dict(A=za[1], Z=za[0]), dict(A=1.0, Z=0.0)])
         name = f"{kind}_{fl}"
         p = [dict(x=float(r.choice([0.02, 0.1, 0.4])), Q2=float(r.choice([10.0, 100.0, 2000.0])))]
         th = cards.theory(PTO=pto_evol, PTODIS=pto, FNS=scheme, NfFF=nfff)
@@ -87,7 +94,7 @@ def run(tier):
     common.lean_proof_step(chk, "YadismModel.Properties.C12", thorough=thorough)
     r = common.rng("C12")
     corr_targets(chk)
-    corr_weights.run_combiner(chk, 300 if thorough else 30, r)
+    corr_weights.run_isospin(chk, 150 if thorough else 15, r)
     search(chk, r, 150 if thorough else 16, 2 if thorough else 1)
     chk.assumptions += ["operator entries are linear in the parton weights (`conv` is a parameter)", "marble's TargetDISid string formatting is compared literally"]
     return chk
